@@ -354,6 +354,9 @@ class Sym(Interp):
 
     def h_compare(self, ops, vals, n, ctx):
         vals = [T(v) for v in vals]
+        if len(ops) == 1 and isinstance(ops[0], (ast.Eq, ast.NotEq)) and all(isinstance(v, tuple) and len(v) == 2 and v[0] == "const" and isinstance(v[1], str) for v in vals):
+            # 'noise' == 'shift': two string literals (the kind of a record in an unrolled dispatch loop against a literal) compare as they do
+            return ("const", (vals[0][1] == vals[1][1]) == isinstance(ops[0], ast.Eq))
         parts = [("cmp", CMPS[type(o)], a, b) for o, a, b in zip(ops, vals, vals[1:])]
         return parts[0] if len(parts) == 1 else ("bool", "and", tuple(parts))
 
